@@ -128,15 +128,15 @@ Section Proofs.
   Lemma enc_hdr_ne : forall p, enc_piece_hdr p <> [].
   Proof. intros p. unfold enc_piece_hdr, be32. cbn [app]. discriminate. Qed.
 
-  Ltac sel := cbn [set_ws choked queue obuf msgs out last_piece cur closed ws send_choked ebuf eb_end kpos].
+  Ltac sel := cbn [set_ws choked queue obuf msgs out last_piece cur closed ws send_choked ebuf eb_end kpos upc load_chunk].
 
   (* something (B) was buffered by fill: the writer goes to MSG with crypt(B) in the buffer *)
-  Lemma inv_after_fill : forall s (B : list N) ms (lp : bool) c q ch sc cl,
+  Lemma inv_after_fill : forall s (B : list N) ms (lp : bool) c q ch sc cl u,
     Inv s -> ws s = Idle -> B <> [] ->
     wire ms = wire (msgs s) ++ B ++ (if lp then slice (p_index c) (p_off c) (p_len c) else []) ->
-    Inv (mkSt ch sc q Msg (crypt (kpos s) B) lp c cl (out s) ms (ebuf s) (eb_end s) (kpos s + len B)).
+    Inv (mkSt ch sc q Msg (crypt (kpos s) B) lp c cl (out s) ms (ebuf s) (eb_end s) (kpos s + len B) u).
   Proof.
-    intros s B ms lp c q ch sc cl (Ho & He & Hp & Hl & P1 & Hw & Hs & Hk) Hws HB Hms.
+    intros s B ms lp c q ch sc cl u (Ho & He & Hp & Hl & P1 & Hw & Hs & Hk) Hws HB Hms.
     assert (Hob : obuf s = []) by (apply Ho; rewrite Hws; discriminate).
     assert (Heb : ebuf s = []) by (apply He; rewrite Hws; discriminate).
     unfold Model.pend_payload in Hw. rewrite Hws in Hw. rewrite app_nil_r in Hw.
@@ -152,11 +152,11 @@ Section Proofs.
   Qed.
 
   (* nothing was buffered (or the connection was closed): the writer stays idle *)
-  Lemma inv_idle_same : forall s lp c q ch sc cl k',
+  Lemma inv_idle_same : forall s lp c q ch sc cl k' u,
     Inv s -> ws s = Idle -> k' = kpos s ->
-    Inv (mkSt ch sc q Idle [] lp c cl (out s) (msgs s) (ebuf s) (eb_end s) k').
+    Inv (mkSt ch sc q Idle [] lp c cl (out s) (msgs s) (ebuf s) (eb_end s) k' u).
   Proof.
-    intros s lp c q ch sc cl k' (Ho & He & Hp & Hl & P1 & Hw & Hs & Hk) Hws ->.
+    intros s lp c q ch sc cl k' u (Ho & He & Hp & Hl & P1 & Hw & Hs & Hk) Hws ->.
     assert (Hob : obuf s = []) by (apply Ho; rewrite Hws; discriminate).
     assert (Heb : ebuf s = []) by (apply He; rewrite Hws; discriminate).
     unfold Inv; sel. repeat split; try (intros; first [reflexivity | assumption]).
